@@ -12,4 +12,8 @@ case "$patch" in
   -R:*) git -C "$d" revert --no-commit "${patch#-R:}" >/dev/null 2>&1 || { echo "revert failed"; exit 3; } ;;
   *) git -C "$d" apply "$patch" || { echo "patch does not apply"; exit 3; } ;;
 esac
-cd /verif && GSA_REPO="$d" ./bin/gsa check "$id" --tier "$tier"
+cd /verif
+if [ ! -x bin/gsa ] || [ -n "$(find sa -name '*.go' -newer bin/gsa 2>/dev/null | head -1)" ]; then
+  (cd sa && env -u GOTOOLCHAIN -u GOSUMDB GOFLAGS=-mod=mod GOPROXY=off GOWORK=off go build -o ../bin/gsa.new ./cmd/gsa && mv ../bin/gsa.new ../bin/gsa) || { echo "gsa: build failed"; exit 3; }
+fi
+GSA_REPO="$d" ./bin/gsa check "$id" --tier "$tier"
